@@ -70,6 +70,8 @@ func Zip(data []byte) ([]byte, error) {
 	if err != nil {
 		return nil, err
 	}
-	dec := buf.Bytes()
+	// buf goes back to the pool when we return: the result must not alias it
+	dec := make([]byte, buf.Len())
+	copy(dec, buf.Bytes())
 	return dec, nil
 }
